@@ -21,7 +21,7 @@ from sim.coordinator import PY, Pool, default_workers, zygote_env  # noqa: E402
 from sim.minimise import Minimiser  # noqa: E402
 
 BUDGET = {  # wall-clock budgets in seconds per phase
-    "quick": {"random": 30, "xproc": 200, "crash_jobs": {"C17": 14, "C18": 40}, "sweep_len": 2},
+    "quick": {"random": 28, "xproc": 160, "crash_jobs": {"C17": 12, "C18": 30}, "sweep_len": 2},
     "thorough": {"random": 540, "xproc": 4000, "crash_jobs": {"C17": 10**6, "C18": 10**6}, "sweep_len": 3},
 }
 
@@ -275,7 +275,9 @@ def finalize_violation(run, pool, job, res, known):
         fr = fresh_interpreter_run(prog, run.prop)
         fv = fr.get("violation") or {}
         same = (fr.get("status") == "violation" and fv.get("invariant") == viol["invariant"]
-                and fr.get("events_digest") == mres.get("events_digest"))
+                and mres.get("events_digest") in (None, fr.get("events_digest")))
+        if rec.get("event_log_digest") is None:  # found by a crash-point-enumeration grandchild: take the replay's log
+            rec["event_log_digest"] = fr.get("events_digest")
         rec["fresh_interpreter_replay"] = {"status": fr.get("status"), "invariant": fv.get("invariant"),
                                            "events_digest": fr.get("events_digest"), "identical": same}
         if not same:
